@@ -188,6 +188,13 @@ pub fn gen_c_header(r: &mut Rng) -> (String, Facts) {
             }
         }
     }
+    // types that are reachable only through the signature of a function-pointer member
+    if g.r.chance(1, 3) {
+        let stem = g.plain("cbo");
+        let _ = writeln!(g.out, "struct {stem}_ev {{ int code; }};\nstruct {stem}_re {{ int ok; }};\nstruct {stem}_handler {{ struct {stem}_re (*on)(struct {stem}_ev *e, int n); int prio; }};");
+        g.facts.features.push("callback-only-types");
+        g.facts.idents.push(format!("{stem}_handler"));
+    }
     // arrays at the boundary of the built-in array impls (32 / 33 elements), in both dimensions,
     // alone and embedded by value
     if g.r.chance(1, 2) {
@@ -349,7 +356,14 @@ pub fn gen_options(r: &mut Rng, cpp: bool, facts: &Facts) -> OptSet {
             if r.chance(1, 2) { f.push("--allowlist-type".into()); f.push((*r.pick(&cands)).clone()); }
         }
     }
-    match r.below(10) { 0 => f.push("--ignore-functions".into()), 1 => { f.push("--generate".into()); f.push("types,vars".into()); } 2 => f.push("--ignore-methods".into()), _ => {} }
+    if let Some(h) = facts.idents.iter().find(|i| i.ends_with("_handler")) {
+        if r.chance(1, 2) {
+            f.push("--allowlist-type".into()); f.push(h.clone());
+            match r.below(3) { 0 => f.push("--ignore-functions".into()), 1 => { f.push("--generate".into()); f.push("types".into()); } _ => {} }
+        }
+    }
+    let has_cfg = |f: &Vec<String>| f.iter().any(|x| x == "--ignore-functions" || x == "--generate");
+    match r.below(10) { 0 if !has_cfg(&f) => f.push("--ignore-functions".into()), 1 if !has_cfg(&f) => { f.push("--generate".into()); f.push("types,vars".into()); } 2 => f.push("--ignore-methods".into()), _ => {} }
     let mut blocklisted = vec![];
     if r.chance(1, 8) {
         if let Some(t) = facts.idents.iter().find(|i| i.starts_with('S') && i.chars().skip(1).all(|c| c.is_ascii_digit())) {
